@@ -17,7 +17,9 @@ RULE = ("Hypothesis draws an algebraic program over {+, -, unary -, c*, *c, /c, 
         "evaluated with NumPy on the reference matrices (never simplified); incompatible programs must raise. "
         "Non-trivial: >=2 operations, or one operation involving a complex/negative/NumPy scalar, an array operand, an "
         "Identity/ScalarMul/Diagonal operand, or a mismatch (incl. Kronecker sums of non-square operands whose shapes "
-        "compensate, a x b with b x a).")
+        "compensate, a x b with b x a)."
+        " Further: cola.block_diag of operands that are BlockDiag with multiplicities, the same operator object as two"
+        " operands, column-major operands.")
 ASSUMPTIONS = [
     "expected dtype = numpy result_type over leaf dtypes; Python/NumPy scalars contribute only their kind (real/complex)",
     "c / A is read as c * inv(A); a raised TypeError/NotImplementedError is accepted as a refusal, any other value is a violation",
